@@ -12,9 +12,18 @@ ALPH = ["'", '"', "\\", "\n", "\r", "\t", "(", ")", "[", "]", "{", "}", ",", ":"
         "\ud800"]
 
 
+# strings that read like Python literals, names or numbers when they appear inside the printed
+# form of a container (seed C13_f: a textual fix-up of `inf` also hit quoted strings)
+WORDS = ["inf", "-inf", "nan", "None", "True", "False", "1e999", "x ? -inf : y", " inf ", "inf,inf",
+         "lambda", "0x10", "1_000", "b'x'", "u'a'", "...", "Ellipsis", "1e5", "1.", "-0.0", "1j",
+         "{}", "[inf]", "(nan,)", "'inf'"]
+
+
 def strings(tier, rng):
     out = [""]
+    out += WORDS[:14]
     out += ALPH
+    out += WORDS[14:]
     for a, b in itertools.product(ALPH[:20], ALPH[:20]):
         out.append(a + b)
     if tier == "thorough":
